@@ -1,5 +1,6 @@
 From Coq Require Import List Arith ZArith QArith Qabs Bool.
-From BZ Require Import Model.SelfIsect Corr.Common.
+From Coq Require Import Qcanon.
+From BZ Require Import Base.Ops Base.QcInst Model.Curve Model.SelfIsect Corr.Common.
 Import ListNotations.
 (* the rescaling t/2 + 1/2 is one binary64 addition: allow one rounding (2^-52) *)
 Definition near (a b : Q) : bool := Qle_bool (Qabs (a - b)) (1 # 4503599627370496).
@@ -16,3 +17,31 @@ Definition chk_self (c : list bool * list (list pairQ) * list pairQ) : bool :=
   | Some (res, st) => pairs_eqb res out && match angles st, isects st with [], [] => true | _, _ => false end
   | None => false
   end.
+
+(* WHICH sub-curves the recursion visits: the turning-angle oracle must be asked about the curve itself, then - when the
+   angle is large - about everything the left half visits, then everything the right half visits (exact subdivision of the
+   input over Qc; the observed arrays are the float subdivisions, compared with a tolerance) *)
+Fixpoint expected_calls (fuel : nat) (nodes : list (list Qc)) (answers : list bool) : list (list (list Qc)) * list bool :=
+  match fuel with
+  | O => ([], answers)
+  | S f =>
+      match answers with
+      | [] => ([], [])
+      | true :: rest => ([nodes], rest)
+      | false :: rest =>
+          let '(cl, r1) := expected_calls f (map (subdivide_left QcOps) nodes) rest in
+          let '(cr, r2) := expected_calls f (map (subdivide_right QcOps) nodes) r1 in
+          (nodes :: cl ++ cr, r2)
+      end
+  end.
+Fixpoint calls_close (m : list (list (list Qc))) (o : list (list (list Q))) (tol : Q) : bool :=
+  match m, o with
+  | [], [] => true
+  | a :: m', b :: o' => close_rel_mat a b 0 tol && calls_close m' o' tol
+  | _, _ => false
+  end.
+(* (input nodes, recorded angle answers, observed arguments of the angle oracle in call order, tolerance) *)
+Definition chk_self_calls (c : list (list Q) * list bool * list (list (list Q)) * Q) : bool :=
+  let '(nodes, ang, obs, tol) := c in
+  let '(calls, rest) := expected_calls 60 (qcm nodes) ang in
+  calls_close calls obs tol && match rest with [] => true | _ => false end.
